@@ -202,7 +202,7 @@ func countPages(f *pqref.File) int64 {
 	return n
 }
 
-var c02Kinds = []int{1, 2, 3, 5, 6, 8}
+var c02Kinds = []int{1, 2, 3, 4, 5, 6, 8}
 
 func c02Run(x *engine.X) {
 	root := x.Choose(len(rowTypes)*len(c02Kinds), "type*seqkind")
@@ -215,9 +215,23 @@ func c02Run(x *engine.X) {
 	}
 	var cuts []int
 	var flush []bool
-	if n := len(rows); n > 1 && x.Deviate(2, "hist") == 1 {
-		cuts, flush = []int{n / 2}, []bool{true}
-		x.Descf("cut+flush@%d", n/2)
+	if n := len(rows); n > 1 {
+		// two Write calls (pages are only cut between calls): free for short
+		// sequences, one deviation for long ones
+		var h int
+		if n <= 3 {
+			h = x.Choose(3, "hist")
+		} else {
+			h = x.Deviate(2, "hist")
+		}
+		switch h {
+		case 1:
+			cuts, flush = []int{n / 2}, []bool{true}
+			x.Descf("cut+flush@%d", n/2)
+		case 2:
+			cuts, flush = []int{n / 2}, []bool{false}
+			x.Descf("cut@%d", n/2)
+		}
 	}
 	cfg := chooseWriterOptions(x, rt.SchemaOf(), tmpDir)
 	var buf bytes.Buffer
